@@ -49,6 +49,9 @@ func (d *Data) MergeLabels(v dvid.VersionID, op labels.MergeOp, info dvid.ModInf
 	if len(op.Merged) == 0 {
 		return 0, fmt.Errorf("merge requested without any labels to merge")
 	}
+	if _, found := op.Merged[op.Target]; found {
+		return 0, fmt.Errorf("merge target %d cannot be one of the labels to merge", op.Target)
+	}
 	dvid.Debugf("Merging %s into label %d ...\n", op.Merged, op.Target)
 
 	d.StartUpdate()
